@@ -26,11 +26,14 @@ def make_model(npar):
     return m, names
 
 
-def make_input(step, c, names):
+UNKNOWN_NAMES = ["zz", "t", "X1"]      # not a parameter: an arbitrary name, the time symbol, a state
+
+
+def make_input(step, c, names, unknown="zz"):
     """the Python object assigned to model.parameters for one specification action"""
     form, nm = step["form"], step["names"]
     npar = len(names)
-    name = lambda k: names[k - 1] if k >= 1 else "zz"
+    name = lambda k: names[k - 1] if k >= 1 else unknown
     act = step["act"]
     vals = [value((c, j + 1)) for j in range(len(nm))]
     if act == "Positional" or act == "RejectWrongLength" and form != "pairs-list":
@@ -70,11 +73,22 @@ def make_input(step, c, names):
 
 
 def replay(hist, npar):
-    """returns None or a mismatch description"""
+    """returns None or a mismatch description; a history that names an unknown parameter is performed once per kind
+    of unknown name (an arbitrary name, the time symbol, a state name)"""
+    has_unknown = any(k < 1 for step in hist for k in step["names"])
+    for unknown in (UNKNOWN_NAMES if has_unknown else ["zz"]):
+        mm = replay_one(hist, npar, unknown)
+        if mm:
+            mm["unknown_name"] = unknown
+            return mm
+    return None
+
+
+def replay_one(hist, npar, unknown):
     m, names = make_model(npar)
     x = X[:npar]
     for c, step in enumerate(hist, start=1):
-        inp = make_input(step, c, names)
+        inp = make_input(step, c, names, unknown)
         raised = None
         try:
             m.parameters = inp
